@@ -241,7 +241,7 @@ func runC06Recv(t fataler, c c06Case) string {
 	}
 	var readDone <-chan struct{}
 	wantMsgs := 0
-	if c.Timing == "read-pending" {
+	if c.Timing == "read-pending" || c.Timing == "read-pending-hangup" {
 		readDone = e.Call(readLoop)
 		synctest.Wait()
 	}
@@ -250,6 +250,12 @@ func runC06Recv(t fataler, c c06Case) string {
 		wantMsgs = 1
 	}
 	p.send(ref.Frame{Fin: true, Opcode: ref.OpClose, Payload: payload})
+	hangup := strings.HasSuffix(c.Timing, "-hangup")
+	if hangup {
+		// the peer does not wait for the echo: it hangs up at once, so the
+		// library's echo write fails. The Close frame was received all the same.
+		lc.End.Close()
+	}
 	if readDone == nil {
 		synctest.Wait()
 		readDone = e.Call(readLoop)
@@ -288,11 +294,13 @@ func runC06Recv(t fataler, c c06Case) string {
 		if got := websocket.CloseStatus(rerr); int(got) != code {
 			return fmt.Sprintf("CloseStatus = %d, want %d", got, code)
 		}
-		if len(closes) == 0 {
-			return "received Close frame was not echoed"
-		}
-		if !bytes.Equal(closes[0].Payload, payload) {
-			return fmt.Sprintf("echoed Close payload %x, want %x", closes[0].Payload, payload)
+		if !hangup {
+			if len(closes) == 0 {
+				return "received Close frame was not echoed"
+			}
+			if !bytes.Equal(closes[0].Payload, payload) {
+				return fmt.Sprintf("echoed Close payload %x, want %x", closes[0].Payload, payload)
+			}
 		}
 	} else {
 		if rerr == nil {
@@ -339,7 +347,7 @@ func TestC06(t *testing.T) {
 	shard, shards := evid.EnvInt("VERIF_SHARD", 0), evid.EnvInt("VERIF_SHARDS", 1)
 	reasonLens := []int{0, 1, 2, 122, 123, 124, 125, 130}
 	timingsL := []string{"idle", "after-msg", "read-pending"}
-	timingsR := []string{"read-pending", "read-after", "after-msg"}
+	timingsR := []string{"read-pending", "read-after", "after-msg", "read-pending-hangup", "read-after-hangup"}
 	codes := make([]int, 0, 65600)
 	for c := 0; c <= 65535; c++ {
 		codes = append(codes, c)
@@ -375,7 +383,7 @@ func TestC06(t *testing.T) {
 			if (r>>32)%4 == 0 {
 				rl2 = 123
 			}
-			one(c06Case{Kind: "recv", Client: !roleL, Code: code, ReasonLen: rl2, Timing: timingsR[(r>>40)%3]})
+			one(c06Case{Kind: "recv", Client: !roleL, Code: code, ReasonLen: rl2, Timing: timingsR[(r>>40)%5]})
 		}
 		if thorough || ref.Sendable(code) && code < 1100 || code == 1005 {
 			for _, cl := range []bool{false, true} {
@@ -384,7 +392,7 @@ func TestC06(t *testing.T) {
 				}
 				if thorough && code >= 0 && code <= 65535 {
 					for _, n := range []int{0, 1, 60, 123} {
-						one(c06Case{Kind: "recv", Client: cl, Code: code, ReasonLen: n, Timing: timingsR[int(r>>44)%3]})
+						one(c06Case{Kind: "recv", Client: cl, Code: code, ReasonLen: n, Timing: timingsR[int(r>>44)%5]})
 					}
 				}
 			}
@@ -439,7 +447,7 @@ func TestC06Mixed(t *testing.T) {
 		case "local":
 			c.Timing = rapid.SampledFrom([]string{"idle", "after-msg", "read-pending"}).Draw(rt, "timing")
 		case "recv":
-			c.Timing = rapid.SampledFrom([]string{"read-pending", "read-after", "after-msg"}).Draw(rt, "timing")
+			c.Timing = rapid.SampledFrom([]string{"read-pending", "read-after", "after-msg", "read-pending-hangup", "read-after-hangup"}).Draw(rt, "timing")
 			if rl > 123 {
 				c.ReasonLen = 123
 			}
